@@ -192,6 +192,10 @@ AcceptCall(A, S, ev) ==
 (***************************************************************************)
 (* Next: logical successor state                                           *)
 (***************************************************************************)
+\* A slow user function: the clock advanced by ev.ft while it ran.  The value is stored, and its
+\* expiry armed, when the function has returned (visibility of the old value is judged before it runs).
+FnTime(ev) == IF "ft" \in DOMAIN ev THEN ev.ft ELSE 0
+
 NextCall(S, ev) ==
   LET now == ev.now
       k == ev.k
@@ -199,11 +203,11 @@ NextCall(S, ev) ==
       d == DurationOf(S, ev)
   IN
   CASE ev.op \in {"Set", "SetDefault", "SetForever", "GetAndSet"} -> Store(S, k, ev.v, Expiration(S, d, now))
-    [] ev.op \in {"GetOrSet", "GetOrCompute"} -> IF vw.ok THEN S ELSE Store(S, k, ev.v, Expiration(S, d, now))
+    [] ev.op \in {"GetOrSet", "GetOrCompute"} -> IF vw.ok THEN S ELSE Store(S, k, ev.v, Expiration(S, d, now + FnTime(ev)))
     [] ev.op = "GetAndRefresh" -> IF vw.ok THEN Store(S, k, vw.v, Expiration(S, d, now)) ELSE S
     [] ev.op = "Compute" ->
          LET r == FnResult(ev.fn, ev.v, vw.v, vw.ok)
-         IN IF r[2] THEN (IF vw.ok THEN Remove(S, k) ELSE S) ELSE Store(S, k, r[1], Expiration(S, d, now))
+         IN IF r[2] THEN (IF vw.ok THEN Remove(S, k) ELSE S) ELSE Store(S, k, r[1], Expiration(S, d, now + FnTime(ev)))
     [] ev.op \in {"GetAndDelete", "Delete"} ->
          IF vw.ok \/ ev.c1 < ev.c0
          THEN [Remove(S, k) EXCEPT !.evicted = @ \cup {ev.evs[i].v : i \in DOMAIN ev.evs}]
